@@ -8,6 +8,10 @@ def dispatch (op : String) (args : List Sexp) : String :=
   | "codec.dec" => opCodecDec args
   | "sock.recv" => opSockRecv args
   | "seq.hash" => opSeqHash args
+  | "enum.getitem" => opEnum "getitem" args
+  | "enum.get" => opEnum "get" args
+  | "enum.contains" => opEnum "contains" args
+  | "status.text" => opStatusText args
   | "seq.nth" => opSeqNth args
   | "sock.send" => opSockSend args
   | _ => "bad-op"
